@@ -168,6 +168,26 @@ func (e *Engine) CheckHooks() {
 // CheckCtxPropagation cancels every publish context and checks that each context that was handed
 // to a context-aware handler observes the cancellation (C08).
 func (e *Engine) CheckCtxPropagation() {
+	// before anything is cancelled: a context handed to a handler lives as long as the publish
+	// context it was derived from, and has the same deadline (none, if that has none)
+	e.mu.Lock()
+	for _, c := range e.captured {
+		pi := e.pubs[c.eid]
+		if pi == nil || pi.ctx == nil || e.failed {
+			continue
+		}
+		if pi.ctx.Err() == nil && c.ctx.Err() != nil {
+			e.failLocked("ctx:ended-before-the-publish-context", "the context given to registration #%d for event %d has ended (%v) although the context of that publish is still live", c.reg, c.eid, c.ctx.Err())
+			break
+		}
+		d1, ok1 := pi.ctx.Deadline()
+		d2, ok2 := c.ctx.Deadline()
+		if ok1 != ok2 || !d1.Equal(d2) {
+			e.failLocked("ctx:deadline-differs-from-the-publish-context", "the context given to registration #%d for event %d reports the deadline (%v, %v), the context of that publish (%v, %v)", c.reg, c.eid, d2, ok2, d1, ok1)
+			break
+		}
+	}
+	e.mu.Unlock()
 	for _, c := range e.cancels {
 		c()
 	}
